@@ -49,7 +49,9 @@ func init() {
 		Title:    "Boards inherit from their base and never leak changes back",
 		Patterns: []string{"./d2ir", "./d2ast"},
 		Explanation: "Decides copy-before-mutate and restore-after-remove shapes in d2ir: (1) in overlay and overlayClasses every map handed to OverlayMap or DeleteField as the destination derives from a Copy/CopyBase made in that function (its nearest definition is a copy), never from the parameter/base itself; " +
-			"(2) CopyBase puts back every board field it temporarily removes from the base (each DeleteField result is re-appended under a nil test before the function returns) and copies after removing them, so boards are not copied into their children.",
+			"(2) CopyBase puts back every board field it temporarily removes from the base (each DeleteField result is re-appended under a nil test before the function returns) and copies after removing them, so boards are not copied into their children; " +
+			"(3) a forked glob context owns its applied-sets: copyApplied assigns a fresh map to every map-typed field of globContext on every path (the struct copy made by copy() shares them otherwise); " +
+			"(4) a mutating walk towards the root stops at the board boundary: in DeleteField(Key) the step to the parent map is reached only when the current map is not a board root (otherwise `obj: null` in a scenario deletes connections of its base).",
 		NotCovered: "what a board shows (inheritance semantics per board kind), glob-context copying per board kind",
 		Technique:  "static analysis: value provenance of destination arguments, paired remove/re-append on the typed AST",
 		Run:        runC15,
@@ -157,6 +159,64 @@ func runC10(c *core.Check) {
 			c.Decide(f.sep, "C10.predicate", name+":quoted-reserved-separation", f.pos, "quoted names are kept apart from unquoted reserved keywords",
 				"this lookup matches by name only, while its siblings keep a quoted name (an object called \"label\") apart from the unquoted reserved keyword: it can pick the wrong one of two same-named fields")
 		}
+	}
+	// connection identifiers: Match and resolve compare path elements; they are siblings of the field lookups
+	// (deleting or indexing `(A.x -> a.y)[0]` must find the connection declared as `a.x -> a.y`)
+	pathFields := map[*types.Var]bool{structField(c.P, "d2ir", "EdgeID", "SrcPath"): true, structField(c.P, "d2ir", "EdgeID", "DstPath"): true}
+	for _, name := range []string{"Match", "resolve"} {
+		fi := mustFunc(c, "d2ir", "EdgeID", name)
+		if fi == nil {
+			continue
+		}
+		info := fi.Pkg.TypesInfo
+		fromPath := func(e ast.Expr) bool {
+			// <…>.SrcPath[i].ScalarString() or a range value over a path
+			found := false
+			ast.Inspect(e, func(n ast.Node) bool {
+				if sel, ok := n.(*ast.SelectorExpr); ok {
+					if v := core.FieldOf(info, sel); v != nil && pathFields[v] {
+						found = true
+					}
+				}
+				if id, ok := n.(*ast.Ident); ok {
+					if o := core.ObjOf(info, id); o != nil {
+						for _, d := range defsOf(fi, o) {
+							if rs, ok := d.Stmt.(*ast.RangeStmt); ok && d.Rhs == nil {
+								if v := core.FieldOf(info, rs.X); v != nil && pathFields[v] {
+									found = true
+								}
+							}
+						}
+					}
+				}
+				return true
+			})
+			return found
+		}
+		nfold, nexact := 0, 0
+		var exactPos token.Pos
+		ast.Inspect(fi.Decl.Body, func(n ast.Node) bool {
+			switch x := n.(type) {
+			case *ast.CallExpr:
+				if core.IsCallTo(info, x, "strings.EqualFold") && len(x.Args) == 2 && fromPath(x.Args[0]) && fromPath(x.Args[1]) {
+					nfold++
+				}
+			case *ast.BinaryExpr:
+				if (x.Op == token.EQL || x.Op == token.NEQ) && !isConst(info, x.X) && !isConst(info, x.Y) && fromPath(x.X) && fromPath(x.Y) {
+					if t, ok := info.Types[x.X]; ok && types.Identical(t.Type.Underlying(), types.Typ[types.String]) {
+						nexact++
+						exactPos = x.Pos()
+					}
+				}
+			}
+			return true
+		})
+		pos := fi.Decl.Pos()
+		if nexact > 0 {
+			pos = exactPos
+		}
+		c.Decide(nfold > 0 && nexact == 0, "C10.predicate", "EdgeID."+name+":case-insensitive", pos, fmt.Sprintf("%d EqualFold comparisons of path elements, no exact one", nfold),
+			"EdgeID."+name+" compares path elements exactly while field lookups fold case: a connection addressed with different capitalisation (`(A.x -> a.y)[0]: null`) is not found")
 	}
 	// null branches
 	cf := mustFunc(c, "d2ir", "compiler", "_compileField")
@@ -611,6 +671,23 @@ func runC13(c *core.Check) {
 					}
 					return true
 				})
+				// the "is this the current scope" flag passed to resolveSubstitution is <stack index> == 0 and the
+				// map searched is this iteration's map (sibling agreement between the string kinds)
+				for _, call := range core.Calls(loop.Body, false) {
+					if !core.IsCallTo(info, call, "d2ir.(*compiler).resolveSubstitution") || len(call.Args) != 4 {
+						continue
+					}
+					okArgs := loop.Value != nil && core.ObjOf(info, call.Args[0]) == core.ObjOf(info, loop.Value)
+					okFlag := false
+					if be, ok := ast.Unparen(call.Args[3]).(*ast.BinaryExpr); ok && be.Op == token.EQL && loop.Key != nil {
+						k := core.ObjOf(info, loop.Key)
+						if tv, ok := info.Types[be.Y]; ok && tv.Value != nil && tv.Value.ExactString() == "0" && k != nil && core.ObjOf(info, be.X) == k {
+							okFlag = true
+						}
+					}
+					c.Decide(okArgs && okFlag, "C13.scope-order", "resolveSubstitutions:current-scope-flag", call.Pos(), "searches this iteration's map; current-scope flag is <stack index> == 0",
+						"the current-scope flag is not derived from the vars-stack index of this loop (or another map is searched): self-referencing redefinitions like `x: \"${x}-b\"` resolve to themselves or fail")
+				}
 				c.Decide(hasBreak, "C13.scope-order", "resolveSubstitutions:first-hit-wins", loop.Pos(), "break on the first scope that defines the variable", "the stack is walked from the innermost scope without stopping at the first hit: an outer definition overrides the inner one")
 				return true
 			})
@@ -736,6 +813,91 @@ func runC15(c *core.Check) {
 			c.Fail("C15.copy-before-mutate", name+":none", fi.Decl.Pos(), "no OverlayMap/DeleteField call found")
 		}
 	}
+	c.Rule("C15.fork-owned-sets", "copyApplied gives the forked glob context its own map for every map-typed field, unconditionally")
+	c.Rule("C15.board-boundary", "the edge-deleting walk to the parent map stops at a board root")
+	if ca := mustFunc(c, "d2ir", "globContext", "copyApplied"); ca != nil {
+		info := ca.Pkg.TypesInfo
+		fl := core.NewFlow(ca.Pkg, ca.Decl.Body)
+		recv := ca.Obj.Type().(*types.Signature).Recv()
+		st, _ := recv.Type().(*types.Pointer).Elem().Underlying().(*types.Struct)
+		nmap := 0
+		for i := 0; st != nil && i < st.NumFields(); i++ {
+			f := st.Field(i)
+			if _, ok := f.Type().Underlying().(*types.Map); !ok {
+				continue
+			}
+			nmap++
+			isFresh := func(nd ast.Node) bool {
+				as, ok := nd.(*ast.AssignStmt)
+				if !ok || len(as.Lhs) != 1 || len(as.Rhs) != 1 || core.FieldOf(info, as.Lhs[0]) != f || rootIdent(info, as.Lhs[0]) != types.Object(recvObj(ca)) {
+					return false
+				}
+				switch r := ast.Unparen(as.Rhs[0]).(type) {
+				case *ast.CallExpr:
+					return exprStr(r.Fun) == "make"
+				case *ast.CompositeLit:
+					return true
+				}
+				return false
+			}
+			ok := true
+			exits := fl.Exits()
+			for _, ex := range exits {
+				if pass, _ := fl.MustPassBefore(ex.Blk, ex.Idx, isFresh); !pass {
+					ok = false
+				}
+			}
+			c.Decide(ok && len(exits) > 0, "C15.fork-owned-sets", "copyApplied:"+f.Name(), ca.Decl.Pos(), "fresh map assigned on every path", "the forked glob context keeps sharing "+f.Name()+" with the context it was copied from on some path: applications recorded in one scenario suppress the glob in its siblings")
+		}
+		if nmap == 0 {
+			c.Fail("C15.fork-owned-sets", "copyApplied:no-map-fields", ca.Decl.Pos(), "globContext has no map-typed fields any more; the rule needs review")
+		}
+	}
+	for _, name := range []string{"DeleteFieldKey", "DeleteField"} {
+		fi := c.P.Func("d2ir", "Map", name)
+		if fi == nil {
+			continue
+		}
+		info := fi.Pkg.TypesInfo
+		fl := core.NewFlow(fi.Pkg, fi.Decl.Body)
+		ast.Inspect(fi.Decl.Body, func(n ast.Node) bool {
+			as, ok := n.(*ast.AssignStmt)
+			if !ok || as.Tok != token.ASSIGN || len(as.Lhs) != 1 || len(as.Rhs) != 1 {
+				return true
+			}
+			call, ok := ast.Unparen(as.Rhs[0]).(*ast.CallExpr)
+			if !ok || !core.IsCallTo(info, call, "d2ir.ParentMap") || len(call.Args) != 1 {
+				return true
+			}
+			v := core.ObjOf(info, as.Lhs[0])
+			if v == nil || core.ObjOf(info, call.Args[0]) != v {
+				return true
+			}
+			// only walks that mutate on the way (DeleteEdge inside the same loop)
+			stopped := false
+			for _, g := range fl.GuardsOfNode(as) {
+				for _, a := range append(g.Atoms(), g) {
+					be, ok := ast.Unparen(a.Cond).(*ast.BinaryExpr)
+					if !ok || (be.Op != token.NEQ && be.Op != token.EQL) {
+						continue
+					}
+					kc, ok := ast.Unparen(be.X).(*ast.CallExpr)
+					if !ok || !core.IsCallTo(info, kc, "d2ir.NodeBoardKind") || core.ObjOf(info, kc.Args[0]) != v {
+						continue
+					}
+					tv, ok := info.Types[be.Y]
+					if !ok || tv.Value == nil || tv.Value.ExactString() != `""` {
+						continue
+					}
+					if (be.Op == token.NEQ && !a.True) || (be.Op == token.EQL && a.True) {
+						stopped = true
+					}
+				}
+			}
+			c.Decide(stopped, "C15.board-boundary", name+":walk-to-parent", as.Pos(), "reached only when NodeBoardKind(current) == \"\"", "the walk that deletes the connections of a deleted field continues past a board root into the base board: `obj: null` in a scenario or step removes connections of the base and of later siblings")
+			return true
+		})
+	}
 	cb := mustFunc(c, "d2ir", "Map", "CopyBase")
 	if cb != nil {
 		info := cb.Pkg.TypesInfo
@@ -789,4 +951,13 @@ func runC15(c *core.Check) {
 			fmt.Sprintf("CopyBase removes board fields from the base to copy it and does not put %v back: the base board loses its %v after the first child board is compiled", missing, missing))
 		c.Decide(copyPos > lastDelete && (firstAppend == token.NoPos || copyPos < firstAppend), "C15.restore", "CopyBase:copy-between", cb.Decl.Pos(), "Copy happens after the removals and before the re-appends", "the copy is not taken between removing and restoring the board fields: child boards inherit the base's boards recursively")
 	}
+}
+
+// recvObj returns the receiver variable of a method declaration.
+func recvObj(fi *core.FuncInfo) *types.Var {
+	if fi.Decl.Recv == nil || len(fi.Decl.Recv.List) == 0 || len(fi.Decl.Recv.List[0].Names) == 0 {
+		return nil
+	}
+	v, _ := fi.Pkg.TypesInfo.Defs[fi.Decl.Recv.List[0].Names[0]].(*types.Var)
+	return v
 }
